@@ -268,7 +268,7 @@ def main(chk):
         tasks.append((o2_marking, (prog, tl)))
     chk.parallel(_dispatch, tasks)
 
-    hobl.handle_obligations(chk, prog, {'C02'}, ['simple', 'session', 'extended', 'named', 'malformed', 'cuts', 'status', 'plugins'])
+    hobl.handle_obligations(chk, prog, {'C02'}, ['simple', 'session', 'extended', 'named', 'malformed', 'cuts', 'status', 'plugins', 'copy'])
 
 if __name__ == '__main__':
     run_check('C02', main)
